@@ -8,6 +8,11 @@ public/underscore names, absolute/relative/aliased/wildcard imports from earlier
 names, neutral module hooks ``__getattr__``/``__dir__``, class-private style, sunder, ``_``, trailing
 underscore) and are spelled like the structural names of the package (the module itself, its
 ancestors, other modules); sub-modules are also fetched as ``from a.b import c``.
+40% of the cases are *loading sessions*: the code is spread over 2-3 top-level packages (later ones
+import from earlier ones, wildcards below same-named local definitions included), loaded one after
+the other by ONE loader in random order, with resolve_aliases(implicit/external variants) between
+loads sometimes and packages left for resolve_aliases(external=True) to pull in; the state after the
+last step is judged against CPython's import of all packages.
 Oracle (M-REF): a separate CPython child really imports the package and reports, per module, the
 names and the *defining identity* of every value.  Griffe: static load + resolve_aliases(
 implicit=True); names and final targets are compared; every resolved alias must present its
@@ -30,7 +35,9 @@ RULE = ("generated acyclic packages of 3-8 modules (0-2 sub-packages, optional n
         "m [as n], from a.b import m [as n]), wildcard imports, __all__ forms (list, tuple, concatenation, +=, other module's "
         "__all__ + list). 10% of bound names are underscore-shaped (dunder, module hooks, class-private style, sunder, "
         "'_', trailing '_'), 10% are spelled like the module itself / an ancestor package / another module. "
-        "Only packages CPython imports without error are judged. distinct = digest of files; non-trivial = >=1 wildcard, "
+        "40% loading sessions: 2-3 top-level packages importing from one another, one loader, random load order, "
+        "resolve_aliases() between loads (implicit x external False/None/True), optionally a package only external=True pulls "
+        "in; judged after the last step. Only packages CPython imports without error are judged. distinct = digest of files; non-trivial = >=1 wildcard, "
         ">=1 __all__ and a re-export chain of length >=2")
 LEVEL_TEXT = ("Each generated package is really imported by a CPython child and statically loaded by Griffe with alias "
               "resolution; per module the visible names (minus the dunders the interpreter sets itself and implicitly bound sub-modules, "
@@ -43,11 +50,16 @@ REQUIRED_COUNTERS = ["packages_compared", "modules_compared", "names_compared", 
                      "alias_presentations_checked", "wildcard_expansions_observed",
                      "wildcards_over_underscore_names_without_all", "wildcards_over_dunder_names_without_all",
                      "wildcards_exporting_underscore_names_through_all", "dunder_names_compared",
-                     "underscore_shaped_names_compared", "namespace_spelled_names_compared"]
+                     "underscore_shaped_names_compared", "namespace_spelled_names_compared",
+                     "sessions_compared", "session_loads_after_a_resolve", "session_wildcard_expansions_after_first_resolve",
+                     "session_packages_pulled_in_by_external_resolve", "late_wildcards_over_another_package",
+                     "late_wildcards_overriding_earlier_local_definition"]
 EXHAUSTIVE = {"quick": False, "thorough": False}
-ASSUMPTIONS = ["import graphs are acyclic by construction", "implicitly bound sub-modules (not bound by a statement of that module) are dropped on both sides"]
+ASSUMPTIONS = ["import graphs are acyclic by construction (across the packages of a session too)",
+               "a session never loads a package twice; when its last resolve_aliases() loaded packages itself, one more call settles the data (loader documentation)", "implicitly bound sub-modules (not bound by a statement of that module) are dropped on both sides"]
 _SERVER: RefServer | None = None
 _WILD = [0]
+_LOADED: list[str] = []     # packages in the order the loader finished loading them (on_package_loaded), whoever asked
 
 
 def server() -> RefServer:
@@ -69,16 +81,58 @@ def make_ext():  # noqa: ANN201
         def on_wildcard_expansion(self, *, alias, loader, **kwargs):  # noqa: ANN001, ANN003, ARG002
             _WILD[0] += 1
 
+        def on_package_loaded(self, *, pkg, loader, **kwargs):  # noqa: ANN001, ANN003, ARG002
+            _LOADED.append(pkg.name)
+
     return Counter()
 
 
-def griffe_view(files: dict, top: str, root) -> tuple[dict, object]:  # noqa: ANN001
+def default_session(tops: list[str]) -> list[list]:
+    return [*(["load", t] for t in tops), ["resolve", {"implicit": True, "external": False}]]
+
+
+def run_session(tops: list[str], session: list[list], root, rec=None) -> tuple[list, object, dict]:  # noqa: ANN001
+    """One loader, the session's steps in order: ["load", top] / ["resolve", {"implicit":…, "external":…}].  A package that
+    an earlier resolve_aliases(external=True) already pulled in is not loaded a second time (re-loading replaces a tree
+    other aliases already point into: C06's domain, not this one).  Afterwards every top must be present; the final
+    state is what gets judged."""
     import griffe
 
     loader = griffe.GriffeLoader(search_paths=[root], allow_inspection=False, extensions=griffe.load_extensions(make_ext()))
-    pkg = loader.load(top)
-    loader.resolve_aliases(implicit=True, external=False)
-    return pkg, loader
+    stats = {"loads_after_a_resolve": 0, "expansions_after_first_resolve": 0, "pulled_in_by_external": 0, "late_explicit_loads": 0}
+    resolved_once = False
+    pulled_in_now = False
+    wild_at_first_resolve = None
+    _LOADED.clear()
+    for op, arg in session:
+        if op == "load":
+            if arg in loader.modules_collection:
+                stats["pulled_in_by_external"] += 1
+                continue
+            loader.load(arg)
+            if resolved_once:
+                stats["loads_after_a_resolve"] += 1
+        else:
+            n_loaded = len(_LOADED)
+            loader.resolve_aliases(implicit=bool(arg.get("implicit", True)), external=arg.get("external", False))
+            pulled_in_now = len(_LOADED) > n_loaded
+            if not resolved_once:
+                resolved_once = True
+                wild_at_first_resolve = _WILD[0]
+    if session and session[-1][0] == "resolve" and pulled_in_now:
+        # the last call loaded packages itself: data "requires subsequent calls" (loader docs) - settle once more
+        loader.resolve_aliases(implicit=True, external=False)
+        stats["settle_resolves"] = 1
+    for t in tops:
+        if t not in loader.modules_collection:
+            # nothing the session resolved pointed into it: load it now (same loader) and settle once more
+            loader.load(t)
+            stats["late_explicit_loads"] += 1
+            loader.resolve_aliases(implicit=True, external=False)
+    if wild_at_first_resolve is not None:
+        stats["expansions_after_first_resolve"] = _WILD[0] - wild_at_first_resolve
+    stats["load_order"] = list(_LOADED)
+    return [loader.modules_collection.get_member(t) for t in tops], loader, stats
 
 
 def walk_modules(mod):  # noqa: ANN001
@@ -88,14 +142,16 @@ def walk_modules(mod):  # noqa: ANN001
             yield from walk_modules(m)
 
 
-def judge(rec, case, files, top, ref, pkg) -> list[tuple]:  # noqa: ANN001, C901, PLR0912
+def judge(rec, case, files, tops, ref, pkgs, load_order=()) -> list[tuple]:  # noqa: ANN001, C901, PLR0912
     """Returns every problem found as (what, observed, expected, finding, tried); judging goes on after a problem so that
     a refutation of a listed mechanism cannot hide an unlisted one in the same package."""
     problems: list[tuple] = []
     from _griffe.exceptions import AliasResolutionError, CyclicAliasError
 
     implicit = implicit_submodule_names(files, ref)
-    for gmod in walk_modules(pkg):
+    collection = pkgs[0].modules_collection
+    late = session_effects(files, ref, list(load_order))
+    for gmod in (m for pkg in pkgs for m in walk_modules(pkg)):
         rmod = ref["modules"].get(gmod.path)
         if rmod is None:
             problems.append((f"module {gmod.path} loaded by griffe but not importable by CPython", gmod.path, None, None, []))
@@ -120,7 +176,7 @@ def judge(rec, case, files, top, ref, pkg) -> list[tuple]:  # noqa: ANN001, C901
         if set(gnames) != set(rnames):
             missing = sorted(set(rnames) - set(gnames))
             extra = sorted(set(gnames) - set(rnames))
-            fid, tried = classify_names(gmod.path, missing, extra, files, ref)
+            fid, tried = classify_names(gmod.path, missing, extra, files, ref, late)
             problems.append((f"names visible in {gmod.path} differ", {"missing_in_griffe": missing, "extra_in_griffe": extra},
                              sorted(rnames), fid, tried))
             rnames = {n: v for n, v in rnames.items() if n in gnames}   # go on with the names both sides have
@@ -139,7 +195,8 @@ def judge(rec, case, files, top, ref, pkg) -> list[tuple]:  # noqa: ANN001, C901
         if rmod["all"] is not None:
             gall = None if gmod.exports is None else [e if isinstance(e, str) else e.name for e in gmod.exports]
             if gall is None or list(gall) != list(rmod["all"]):
-                problems.append((f"__all__ of {gmod.path} differs", gall, rmod["all"], None, []))
+                fid, tried = classify_exports(gmod.path, gall, rmod["all"], late)
+                problems.append((f"__all__ of {gmod.path} differs", gall, rmod["all"], fid, tried))
                 continue
         for n, want in rnames.items():
             m = gnames[n]
@@ -149,7 +206,7 @@ def judge(rec, case, files, top, ref, pkg) -> list[tuple]:  # noqa: ANN001, C901
             try:
                 final = m.final_target if m.is_alias else m
             except (AliasResolutionError, CyclicAliasError) as exc:
-                fid, tried = classify_target(gmod.path, n, {}, want, files, ref)
+                fid, tried = classify_target(gmod.path, n, {}, want, files, ref, late, collection)
                 problems.append((f"{gmod.path}.{n}: alias cannot be resolved in a fully loaded acyclic package", repr(exc)[:200], want, fid, tried))
                 continue
             if want["k"] == "value":
@@ -159,11 +216,14 @@ def judge(rec, case, files, top, ref, pkg) -> list[tuple]:  # noqa: ANN001, C901
             else:
                 continue
             if got != want:
-                fid, tried = classify_target(gmod.path, n, got, want, files, ref)
+                fid, tried = classify_target(gmod.path, n, got, want, files, ref, late, collection)
                 if fid is None and m.is_alias:
                     tried = [*tried, "C05-early-resolution-stale-target"]
-                    fresh = relookup_by_path(pkg.modules_collection, m)
-                    if fresh is not None and fresh.path == want["id"]:
+                    fresh = relookup_by_path(collection, m)
+                    hop = first_replaced_hop(collection, m)
+                    # listed mechanism: the member that was replaced under the cached chain was itself an *alias*
+                    # (set_member re-targets the aliases of a replaced non-alias member, not those of a replaced alias)
+                    if fresh is not None and fresh.path == want["id"] and hop is not None and hop.is_alias:
                         fid = "C05-early-resolution-stale-target"
                 problems.append((f"{gmod.path}.{n} refers to a different definition", got, want, fid, tried))
                 continue
@@ -175,7 +235,7 @@ def judge(rec, case, files, top, ref, pkg) -> list[tuple]:  # noqa: ANN001, C901
                     continue
     for rname in ref["modules"]:
         try:
-            obj = pkg.modules_collection.get_member(rname)
+            obj = collection.get_member(rname)
         except KeyError:
             problems.append((f"module {rname} imported by CPython but not loaded by griffe", None, rname, None, []))
             continue
@@ -217,6 +277,26 @@ def statement_shadows_submodule(files: dict) -> bool:
             else:
                 continue
             if any(n in children and what != f"{pkgpath}.{n}" for n, what in bound):
+                return True
+    return False
+
+
+def wildcard_shadows_submodule(files: dict, ref: dict) -> bool:
+    """Same domain restriction, the wildcard way: a module wildcard-imports a source that hands over (CPython's view) a
+    name equal to one of the importer's own direct sub-modules, bound to something else - typically the implicitly bound
+    sub-module `s0` of another package.  The attribute is re-bound once the importer's own child is imported, so the
+    final state hides it, but statements executed in between (`import pkg.s0.n0 as x`) saw the foreign object."""
+    mods = ref["modules"]
+    for mod, sources in wildcard_sources(files).items():
+        children = {m.rsplit(".", 1)[1] for m in mods if "." in m and m.rsplit(".", 1)[0] == mod}
+        if not children:
+            continue
+        for srcmod in sources:
+            info = mods.get(srcmod)
+            if info is None:
+                continue
+            handed = info["all"] if info["all"] is not None else [n for n in info["names"] if not n.startswith("_")]
+            if any(n in children and info["names"].get(n) != {"k": "module", "id": f"{mod}.{n}"} for n in handed):
                 return True
     return False
 
@@ -338,6 +418,24 @@ def relookup_by_path(collection, alias):  # noqa: ANN001, ANN201
     return None
 
 
+def first_replaced_hop(collection, alias):  # noqa: ANN001, ANN201
+    """Walk the *cached* target chain of a resolved alias; return the first cached object that is no longer the member
+    the collection holds under its path (it was replaced after the alias had been resolved), else None."""
+    cur = alias
+    for _ in range(50):
+        if not cur.is_alias or not cur.resolved:
+            return None
+        tgt = cur.target
+        try:
+            live = collection.get_member(tgt.path)
+        except Exception:  # noqa: BLE001
+            return tgt
+        if live is not tgt:
+            return tgt
+        cur = tgt
+    return None
+
+
 def check_presentation(alias, final):  # noqa: ANN001, ANN201
     if alias.kind is not final.kind:
         return ("kind", alias.kind.value, final.kind.value)
@@ -379,19 +477,177 @@ def from_dot_imported_submodules(files: dict) -> set[str]:
     return out
 
 
-def classify_names(mod_path: str, missing: list, extra: list, files: dict, ref: dict) -> tuple[str | None, list[str]]:
-    tried = ["C05-init-from-dot-import-not-recorded"]
+def classify_names(mod_path: str, missing: list, extra: list, files: dict, ref: dict, late: dict | None = None) -> tuple[str | None, list[str]]:
+    """Every missing name must be explained by a listed mechanism (two of them may meet in one module); none extra."""
+    tried = ["C05-init-from-dot-import-not-recorded", "C05-wildcard-consumed-before-its-source-is-complete"]
+    if not missing or extra:
+        return None, tried
     dotted = from_dot_imported_submodules(files)
     names = ref["modules"][mod_path]["names"]
-    if missing and not extra and all(names[n]["k"] == "module" and names[n]["id"] in dotted for n in missing):
-        return "C05-init-from-dot-import-not-recorded", tried
+    lost = late["missed"].get(mod_path, ()) if late else ()
+    by = {n: ("C05-wildcard-consumed-before-its-source-is-complete" if n in lost else
+              "C05-init-from-dot-import-not-recorded" if names[n]["k"] == "module" and names[n]["id"] in dotted else None)
+          for n in missing}
+    if all(by.values()):
+        return sorted(set(by.values()))[-1], tried
     return None, tried
 
 
-def classify_target(mod_path: str, name: str, got: dict, want: dict, files: dict, ref: dict | None = None) -> tuple[str | None, list[str]]:
+def module_references(files: dict, known: set[str]) -> dict[str, dict[str, str]]:
+    """Per module: names bound at top level by an import statement to a *module* of the generated code (name -> path)."""
+    import ast
+
+    out: dict[str, dict[str, str]] = {}
+    for rel, src in files.items():
+        mod = rel[:-3].replace("/", ".").removesuffix(".__init__")
+        is_pkg = rel.endswith("__init__.py")
+        table = out.setdefault(mod, {})
+        for node in ast.parse(src).body:
+            if isinstance(node, ast.Import):
+                for a in node.names:
+                    target = a.name if a.asname else a.name.split(".")[0]
+                    if target in known:
+                        table[a.asname or target] = target
+            elif isinstance(node, ast.ImportFrom):
+                if node.level:
+                    base = mod.split(".") if is_pkg else mod.split(".")[:-1]
+                    base = base[: len(base) - (node.level - 1)]
+                    srcmod = ".".join(base + ([node.module] if node.module else []))
+                else:
+                    srcmod = node.module or ""
+                for a in node.names:
+                    if a.name != "*" and f"{srcmod}.{a.name}" in known:
+                        table[a.asname or a.name] = f"{srcmod}.{a.name}"
+    return out
+
+
+def all_references(files: dict, known: set[str]) -> dict[str, list[str]]:
+    """Per module: the modules X whose `X.__all__` its own `__all__` statements are built from."""
+    import ast
+
+    refs = module_references(files, known)
+    out: dict[str, list[str]] = {}
+    for rel, src in files.items():
+        mod = rel[:-3].replace("/", ".").removesuffix(".__init__")
+        for node in ast.parse(src).body:
+            if isinstance(node, (ast.Assign, ast.AugAssign, ast.AnnAssign)) and node.value is not None:
+                targets = node.targets if isinstance(node, ast.Assign) else [node.target]
+                if not any(isinstance(t, ast.Name) and t.id == "__all__" for t in targets):
+                    continue
+                for sub in ast.walk(node.value):
+                    if (isinstance(sub, ast.Attribute) and sub.attr == "__all__" and isinstance(sub.value, ast.Name)
+                            and sub.value.id in refs.get(mod, {})):
+                        out.setdefault(mod, []).append(refs[mod][sub.value.id])
+    return out
+
+
+def session_effects(files: dict, ref: dict, load_order: list[str]) -> dict:
+    """What the *order of loading* can cost a module, derived from the sources, CPython's view and the order in which the
+    loader finished loading the packages (on_package_loaded) - never from Griffe's answer.
+
+    ``dropped[M]``: elements of M's `__all__` that come from `X.__all__` with X's package loaded after M's (expand_exports
+    drops such an element for good), or from `S.__all__` with the element in ``dropped[S]``.
+    ``late[S]``: names CPython binds in S through a top-level `from X import *` that crosses into a package loaded after
+    S's package (only a later call can expand it), or with the name in ``late[X]``, or with the name in ``dropped[X]``.
+    ``missed[M]``: names M gets, per CPython, through `from S import *` with the name in ``late[S]`` (at least one wildcard
+    hop away from the late crossing: M's placeholder is expanded and removed as soon as S is loaded, with what S holds
+    then), or directly through `from X import *` with the name in ``dropped[X]``."""
+    rank = {t: i for i, t in enumerate(load_order)}
+    wild = wildcard_sources(files)
+    mods = ref["modules"]
+
+    def before(a: str, b: str) -> bool:
+        return rank.get(a.split(".")[0], -1) < rank.get(b.split(".")[0], -1)
+
+    def exposed(x: str) -> list[str]:
+        info = mods.get(x)
+        if info is None:
+            return []
+        return list(info["all"]) if info["all"] is not None else [n for n in info["names"] if not n.startswith("_")]
+
+    allrefs = all_references(files, set(mods))
+    dropped: dict[str, set[str]] = {m: set() for m in mods}
+    changed = True
+    while changed:
+        changed = False
+        for m_mod, sources in allrefs.items():
+            for x in sources:
+                if m_mod not in mods or x not in mods:
+                    continue
+                add = set(mods[x]["all"] or ()) if before(m_mod, x) else dropped[x]
+                if not add <= dropped[m_mod]:
+                    dropped[m_mod] |= add
+                    changed = True
+    late: dict[str, set[str]] = {m: set() for m in mods}
+    missed: dict[str, set[str]] = {m: set() for m in mods}
+    changed = True
+    while changed:
+        changed = False
+        for s_mod, sources in wild.items():
+            if s_mod not in mods:
+                continue
+            mine = mods[s_mod]["names"]
+            for x in sources:
+                if x not in mods:
+                    continue
+                for n in exposed(x):
+                    if n not in mine or mine[n] != mods[x]["names"].get(n):
+                        continue
+                    if n not in late[s_mod] and (before(s_mod, x) or n in late[x] or n in dropped[x]):
+                        late[s_mod].add(n)
+                        changed = True
+                    if n not in missed[s_mod] and (n in late[x] or n in dropped[x]):
+                        missed[s_mod].add(n)
+                        changed = True
+    return {"late": late, "missed": missed, "dropped": dropped}
+
+
+def passes_through_missed(collection, mod_path: str, name: str, missed: dict) -> bool:  # noqa: ANN001
+    """Follow the target paths from the member (mod_path, name) through the collection: does the chain reach, or dead-end
+    at, a module-level name that the loading order can cost its module (``missed``)?"""
+    path = f"{mod_path}.{name}"
+    seen: set[str] = set()
+    for _ in range(50):
+        if path in seen or "." not in path:
+            return False
+        seen.add(path)
+        owner, nm = path.rsplit(".", 1)
+        if nm in missed.get(owner, ()):
+            return True
+        try:
+            obj = collection.get_member(path)
+        except Exception:  # noqa: BLE001
+            return False
+        if not obj.is_alias:
+            return False
+        path = obj.target_path
+    return False
+
+
+def classify_exports(mod_path: str, gall: list | None, rall: list, late: dict) -> tuple[str | None, list[str]]:
+    """C05-unloaded-exports-element-dropped: Griffe's list is CPython's list with elements removed, each of them one that
+    reaches the module through `X.__all__` of a package loaded later (session_effects: dropped)."""
+    tried = ["C05-unloaded-exports-element-dropped"]
+    dropped = late["dropped"].get(mod_path, set())
+    if gall is None or not dropped or len(gall) >= len(rall):
+        return None, tried
+    i = 0
+    for e in rall:
+        if i < len(gall) and gall[i] == e:
+            i += 1
+        elif e not in dropped:
+            return None, tried
+    return ("C05-unloaded-exports-element-dropped", tried) if i == len(gall) else (None, tried)
+
+
+def classify_target(mod_path: str, name: str, got: dict, want: dict, files: dict, ref: dict | None = None,
+                    late: dict | None = None, collection=None) -> tuple[str | None, list[str]]:  # noqa: ANN001
     tried = ["C05-init-from-dot-import-not-recorded"]
     if want["k"] == "module" and want["id"] in from_dot_imported_submodules(files):
         return "C05-init-from-dot-import-not-recorded", tried
+    tried.append("C05-wildcard-consumed-before-its-source-is-complete")
+    if late and collection is not None and passes_through_missed(collection, mod_path, name, late["missed"]):
+        return "C05-wildcard-consumed-before-its-source-is-complete", tried
     tried.append("C05-repeated-wildcard-skip-keeps-older-line")
     if ref is not None and got and repeated_wildcard_keeps_older_line(mod_path, name, got, want, files, ref):
         return "C05-repeated-wildcard-skip-keeps-older-line", tried
@@ -447,11 +703,16 @@ def repeated_wildcard_keeps_older_line(mod_path: str, name: str, got: dict, want
     return False
 
 
-def run_case(rec, files: dict, top: str, nontrivial: bool, tags=()) -> None:  # noqa: ANN001
+def run_case(rec, files: dict, top, nontrivial: bool, tags=(), session: list | None = None) -> None:  # noqa: ANN001
+    """``top``: one package name or the list of top-level packages the files are spread over; ``session``: the loading
+    session (see run_session), default: load every top, then resolve_aliases(implicit=True, external=False)."""
+    tops = [top] if isinstance(top, str) else list(top)
     case = {"files": files, "top": top}
+    if session is not None:
+        case["session"] = session
     try:
         with case_watchdog(120), tmp_tree(files) as root:
-            rep = server().import_package(str(root), [top])
+            rep = server().import_package(str(root), tops)
             if not rep.get("ok"):
                 rec.inconclusive(case, "reference child failed: " + str(rep.get("error"))[:300])
                 return
@@ -469,12 +730,22 @@ def run_case(rec, files: dict, top: str, nontrivial: bool, tags=()) -> None:  # 
                         # documented limitation ("avoid member-submodule name shadowing"): outside the domain
                         rec.skip("member-shadows-submodule")
                         return
+            if wildcard_shadows_submodule(files, ref):
+                rec.skip("member-shadows-submodule")
+                return
             _WILD[0] = 0
-            pkg, _loader = griffe_view(files, top, root)
+            pkgs, _loader, stats = run_session(tops, session or default_session(tops), root)
             rec.count("packages_compared")
             rec.count("wildcard_expansions_observed", _WILD[0])
+            if session is not None:
+                rec.count("sessions_compared")
+                rec.count("session_loads_after_a_resolve", stats["loads_after_a_resolve"])
+                rec.count("session_wildcard_expansions_after_first_resolve", stats["expansions_after_first_resolve"])
+                rec.count("session_packages_pulled_in_by_external_resolve", stats["pulled_in_by_external"])
+                rec.count("session_packages_loaded_late_explicitly", stats["late_explicit_loads"])
+                count_session_classes(rec, files, ref, tops, session)
             count_input_classes(rec, files, ref)
-            res = judge(rec, case, files, top, ref, pkg)
+            res = judge(rec, case, files, tops, ref, pkgs, stats["load_order"])
     except Exception as exc:  # noqa: BLE001
         rec.fail_exc(case, f"{type(exc).__name__} while loading / resolving an acyclic package", exc, nontrivial=nontrivial, tags=tags)
         return
@@ -484,6 +755,76 @@ def run_case(rec, files: dict, top: str, nontrivial: bool, tags=()) -> None:  # 
         rec.fail(case, first[0], observed=first[1], expected=first[2], finding=first[3], tried=first[4], nontrivial=nontrivial, tags=tags)
     else:
         rec.ok(case, nontrivial=nontrivial, tags=tags)
+
+
+def count_session_classes(rec, files: dict, ref: dict, tops: list[str], session: list) -> None:  # noqa: ANN001
+    """Evidence for the stateful class: a wildcard over a module of *another* top-level package that is loaded only after
+    a resolve_aliases() call that followed the importer's own load ("late" wildcard), sitting below a local definition of
+    a name it rebinds (CPython: the wildcard wins) - and whether some other module imports that name explicitly."""
+    import ast
+
+    load_at = {arg: i for i, (op, arg) in enumerate(session) if op == "load"}
+    resolves = [i for i, (op, _arg) in enumerate(session) if op == "resolve"]
+    explicit: set[tuple[str, str]] = set()
+    trees = {}
+    for rel, src in files.items():
+        mod = rel[:-3].replace("/", ".").removesuffix(".__init__")
+        trees[mod] = tree = ast.parse(src)
+        for node in tree.body:
+            if isinstance(node, ast.ImportFrom) and not node.level and node.module:
+                explicit.update((node.module, a.name) for a in node.names if a.name != "*")
+    for mod, tree in trees.items():
+        own_top = mod.split(".")[0]
+        defined: dict[str, int] = {}
+        for node in tree.body:
+            if isinstance(node, (ast.FunctionDef, ast.ClassDef)):
+                defined[node.name] = node.lineno
+            elif isinstance(node, ast.Assign):
+                defined.update({t.id: node.lineno for t in node.targets if isinstance(t, ast.Name)})
+            elif isinstance(node, ast.ImportFrom) and not node.level and node.module and any(a.name == "*" for a in node.names):
+                src_top = node.module.split(".")[0]
+                if src_top == own_top or src_top not in tops or own_top not in load_at:
+                    continue
+                late = any(load_at[own_top] < r < load_at.get(src_top, len(session)) for r in resolves)
+                if not late:
+                    continue
+                rec.count("late_wildcards_over_another_package")
+                mine = ref["modules"].get(mod, {}).get("names", {})
+                theirs = ref["modules"].get(node.module, {}).get("names", {})
+                rebound = [n for n, ln in defined.items() if ln < node.lineno and n in theirs and mine.get(n) == theirs[n]]
+                if rebound:
+                    rec.count("late_wildcards_overriding_earlier_local_definition")
+                    if any((mod, n) in explicit for n in rebound):
+                        rec.count("late_wildcard_overrides_imported_explicitly_elsewhere")
+
+
+def gen_session(rng: random.Random) -> tuple[dict, list[str], list[list]]:
+    """2-3 top-level packages (later ones import from earlier ones: acyclic), one loader, the packages loaded one after the
+    other in random order, resolve_aliases() between loads sometimes (implicit / external variants), a last resolve."""
+    names = ["pa", "pb", "pc"][: rng.choice([2, 2, 3])]
+    pkgs: list[packages.Pkg] = []
+    files: dict[str, str] = {}
+    for nm in names:
+        pkg = packages.gen_package(rng, nm, with_docs=True, nmods=(2, 5), foreign=list(pkgs))
+        pkgs.append(pkg)
+        files.update(pkg.files())
+    order = list(names)
+    rng.shuffle(order)
+    if rng.random() < 0.2:
+        # one package is never loaded explicitly: a resolve_aliases(external=True) has to pull it in
+        order.remove(rng.choice(names[:-1]))
+        last_external: bool | None = True
+    else:
+        last_external = rng.choice([False, None, True])
+    session: list[list] = []
+    for i, t in enumerate(order):
+        session.append(["load", t])
+        if i < len(order) - 1 and rng.random() < 0.65:
+            session.append(["resolve", {"implicit": rng.random() < 0.7, "external": rng.choice([False, False, None, True])}])
+    if rng.random() < 0.3:
+        session.append(["resolve", {"implicit": rng.random() < 0.5, "external": False}])   # settle in two rounds
+    session.append(["resolve", {"implicit": True, "external": last_external}])
+    return files, names, session
 
 
 def features(files: dict) -> tuple[bool, tuple]:
@@ -517,6 +858,11 @@ def run_shard(spec: dict, rec) -> None:  # noqa: ANN001
     rng = random.Random(spec["seed"])
     try:
         for _ in range(spec["count"]):
+            if rng.random() < 0.4:
+                files, tops, session = gen_session(rng)
+                nontrivial, tags = features(files)
+                run_case(rec, files, tops, nontrivial, (*tags, "session"), session)
+                continue
             pkg = packages.gen_package(rng, "pk", with_docs=True)
             files = pkg.files()
             nontrivial, tags = features(files)
@@ -528,7 +874,7 @@ def run_shard(spec: dict, rec) -> None:  # noqa: ANN001
 
 def run_replay(inp: dict, rec) -> None:  # noqa: ANN001
     try:
-        run_case(rec, inp["files"], inp.get("top", "pk"), True)
+        run_case(rec, inp["files"], inp.get("top", "pk"), True, (), inp.get("session"))
     finally:
         server().close()
 
@@ -540,7 +886,7 @@ def run_pinned(findings: list[dict], rec) -> dict:  # noqa: ANN001
     try:
         for f in findings:
             sub = Recorder(PROP, {})
-            run_case(sub, f["witness"]["files"], f["witness"].get("top", "pk"), True)
+            run_case(sub, f["witness"]["files"], f["witness"].get("top", "pk"), True, (), f["witness"].get("session"))
             out[f["id"]] = pinned_result(sub, f)
     finally:
         server().close()
